@@ -10,6 +10,7 @@ through the real client and a raw renter, faults at every message of free/append
 histories to 64 sectors).
 -/
 import Verif.Lemmas.Rhp
+import Verif.Extracted.RhpHostFacts
 
 namespace Verif.C09
 open Verif.Rhp
@@ -136,6 +137,14 @@ theorem abort_atomic_false_with_sharing :
     ∃ rs is : List Nat, is.Pairwise (· > ·) ∧ (∀ i ∈ is, i < rs.length) ∧
       metaRoot (freeWrites rs 0 is) ≠ metaRoot rs :=
   ⟨[1, 2, 3], [0], by decide, by decide, by decide⟩
+
+open Verif.Extracted in
+/-- the copy semantics the model assumes, re-read from `/repo/rhp/v4/server.go` on every run: the
+free handler clones the lent roots before its first write into them (`Extracted/RhpHostFacts.lean`) -/
+theorem free_clones_before_writing :
+    RhpHost.free.found = true ∧ 0 < RhpHost.free.cloneRoots ∧ RhpHost.free.cloneRoots < RhpHost.free.writeRoots ∧
+    RhpHost.free.writeRoots < RhpHost.free.verifySig := by
+  decide
 
 /-! ### listing and reading back -/
 
